@@ -4,6 +4,7 @@ import (
 	"bytes"
 	"encoding/json"
 	"fmt"
+	"github.com/openebs/jiva/replica"
 	"io"
 	"net"
 	"net/http"
@@ -207,4 +208,47 @@ func RunFragmented(e *Engine, above bool) {
 	e.Check(false)
 	e.Reopen(false)
 	e.Check(false)
+}
+
+// RunReloadBacklog: a reload arrives while the hole puncher still has a backlog
+// for the files the reload is about to close. Even blocks live in one automatic
+// snapshot, odd blocks in the next, and one write over the whole volume makes
+// every block a run of its own: thousands of punches are queued by a single
+// request. The reload that follows at once must neither lose data nor take the
+// process down.
+func RunReloadBacklog(e *Engine) {
+	blocks := 4096 + e.R.Intn(2048)
+	e.Cfg = map[string]interface{}{"blocks": blocks, "punch": true, "profile": "C01-reload-with-punch-backlog"}
+	if err := e.Create(int64(blocks)*Block, true); err != nil {
+		e.Res.Inconclusive = append(e.Res.Inconclusive, "reload-backlog: create: "+err.Error())
+		return
+	}
+	defer e.Destroy()
+	fill := func(first int) {
+		for b := first; b < blocks && !e.Dead; b += 2 {
+			wid := e.M.NextWID
+			e.M.NextWID++
+			if _, err := e.Srv.WriteAt(Payload(int64(b)*Block, Block, wid), int64(b)*Block); err != nil {
+				e.Fail("C01", "write:error-in-RW", err.Error())
+				return
+			}
+			e.M.Write(int64(b)*Block, Block, wid)
+		}
+		e.Res.Count("writes", int64(blocks/2))
+		e.rec(Op{K: "fill-every-other-block", Off: int64(first), Len: int64(blocks / 2)})
+	}
+	fill(0)
+	e.Snapshot(false)
+	fill(1)
+	e.Snapshot(false)
+	e.Write(0, int64(blocks)*Block)
+	e.Res.Count("punches_pending_at_reload", int64(len(replica.HoleCreatorChan)))
+	e.Reload()
+	e.Check(true)
+	if !e.Dead {
+		o, l, _ := e.GenRange()
+		e.Write(o, l)
+		e.Reopen(true)
+		e.Check(false)
+	}
 }
